@@ -54,7 +54,7 @@ Theorem replay_order_free :
     (forall k m l, get_l k s = ∅ -> l ≡ₚ map_to_list m ->
        replay fingerprint inames hc_valid steps
               (flat_map (fun al : N * listener =>
-                           RAddListener k (fst al) (snd al)
+                           RAddListener k (fst al) (snd al) true
                            :: (if l_active (snd al) then [RActivate (proxy_of k) (fst al)] else [])) l) s
        = (set_l k s m, 0%nat))
     /\ (forall m l, clusters s = ∅ -> l ≡ₚ map_to_list m ->
